@@ -5,10 +5,10 @@ package verifh
 
 import (
 	"context"
+	"io"
 	"net"
 	"net/http"
 	"net/http/httptest"
-	"io"
 	"strings"
 	"sync"
 	"time"
